@@ -459,7 +459,7 @@ func runC11_11(c *core.Ctx) {
 	ast.Inspect(f.Decl.Body, func(n ast.Node) bool {
 		if as, ok := n.(*ast.AssignStmt); ok && len(as.Lhs) == 2 && len(as.Rhs) == 1 {
 			if call, ok := ast.Unparen(as.Rhs[0]).(*ast.CallExpr); ok {
-				if cf := flow.CalleeFunc(f.Info, call); cf != nil && cf.Name() == "Write" && cf.Pkg() != nil && cf.Pkg().Path() == "io" {
+				if cf := flow.CalleeFunc(f.Info, call); cf != nil && nameOf(cf) == "Write" && cf.Pkg() != nil && cf.Pkg().Path() == "io" {
 					cnt, errv = flow.ObjOf(f.Info, as.Lhs[0]), flow.ObjOf(f.Info, as.Lhs[1])
 				}
 			}
